@@ -623,15 +623,49 @@ func (ex *Executor) nativeSortSearch(st *State, fr *Frame, fn *ssa.Function, arg
 	if f.Fn == nil {
 		return nil, false, true
 	}
-	ex.Assumed["sort.Search: native model (0 <= r <= n, r < n ==> f(r)); monotonicity of f not checked, minimality not used"] = true
+	ex.Assumed["sort.Search: native model (0 <= r <= n; r < n ==> f(r); r == n ==> forall j < n: !f(j)); monotonicity of f is not checked"] = true
 	r := Fresh("search", SInt)
-	// path A: not found
-	a := ex.fork(st, "nf")
-	a.assume(Eq(r, n))
-	af := a.top()
-	af.vals[resVal] = Val{T: r, Ty: types.Typ[types.Int]}
-	ex.runAnchors(a, af, "call", aname, aord, "after")
-	ex.work = append(ex.work, a)
+	// path A: not found: r == n and f(j) is false for every j < n (the closure is evaluated at a bound variable;
+	// it must be straight-line code)
+	{
+		a := ex.fork(st, "nf")
+		a.assume(Eq(r, n))
+		cfn := f.Fn.Fn
+		freshCtr++
+		j := Sym(fmt.Sprintf("j!srch%d", freshCtr), SInt)
+		qf := ex.newFrame(cfn, nil, fr.depth+1)
+		qf.vals[cfn.Params[0]] = Val{T: j, Ty: types.Typ[types.Int]}
+		qf.locals[cfn.Params[0].Name()] = localRef{v: qf.vals[cfn.Params[0]]}
+		for i, v := range cfn.FreeVars {
+			if i < len(f.Fn.Bind) {
+				qf.vals[v] = f.Fn.Bind[i]
+				qf.locals[v.Name()] = localRef{v: f.Fn.Bind[i], isAddr: true}
+			}
+		}
+		qf.callInstr = ins
+		qf.blk = cfn.Blocks[0]
+		qf.oldHeap = copyHeap(a.heap)
+		qf.oldAlloc = a.alloc
+		nfacts := len(a.facts)
+		plen := len(a.path)
+		a.noObl++
+		qf.afterReturn = func(s *State, caller *Frame, res []Val) bool {
+			s.noObl--
+			if len(s.path) != plen {
+				ex.errf("%s: sort.Search predicate is not straight-line code", ex.unitKey)
+				return false
+			}
+			s.facts = s.facts[:nfacts]
+			if len(res) == 1 && res[0].T != nil && res[0].T.S == SBool {
+				s.assume(Forall([]*Term{j}, Implies(And(Le(Num(0), j), Lt(j, r)), Not(res[0].T))))
+			}
+			caller.vals[resVal] = Val{T: r, Ty: types.Typ[types.Int]}
+			ex.runAnchors(s, caller, "call", aname, aord, "after")
+			return true
+		}
+		a.frames = append(a.frames, qf)
+		ex.work = append(ex.work, a)
+	}
 	// path B: found: evaluate f(r)
 	st.path = append(st.path, "fd")
 	st.assume(And(Le(Num(0), r), Lt(r, n)))
